@@ -57,6 +57,21 @@ impl Translator<String> for ToPk {
     fn ripemd160(&mut self, h: &String) -> Result<ripemd160::Hash, String> { Ok(Env::<bitcoin::PublicKey>::ripemd160(&PkEnv { form: self.form }, h)) }
     fn hash160(&mut self, h: &String) -> Result<hash160::Hash, String> { Ok(Env::<bitcoin::PublicKey>::hash160(&PkEnv { form: self.form }, h)) }
 }
+/// Maps ONE label to an uncompressed key and every other label to a compressed one.
+pub struct OneUncompressed {
+    pub label: String,
+}
+impl Translator<String> for OneUncompressed {
+    type TargetPk = bitcoin::PublicKey;
+    type Error = String;
+    fn pk(&mut self, pk: &String) -> Result<bitcoin::PublicKey, String> {
+        Ok(PkEnv { form: if *pk == self.label { KeyForm::Uncompressed } else { KeyForm::Compressed } }.pk(pk))
+    }
+    fn sha256(&mut self, h: &String) -> Result<sha256::Hash, String> { Ok(Env::<bitcoin::PublicKey>::sha256(&PkEnv { form: KeyForm::Compressed }, h)) }
+    fn hash256(&mut self, h: &String) -> Result<miniscript::hash256::Hash, String> { Ok(Env::<bitcoin::PublicKey>::hash256(&PkEnv { form: KeyForm::Compressed }, h)) }
+    fn ripemd160(&mut self, h: &String) -> Result<ripemd160::Hash, String> { Ok(Env::<bitcoin::PublicKey>::ripemd160(&PkEnv { form: KeyForm::Compressed }, h)) }
+    fn hash160(&mut self, h: &String) -> Result<hash160::Hash, String> { Ok(Env::<bitcoin::PublicKey>::hash160(&PkEnv { form: KeyForm::Compressed }, h)) }
+}
 pub struct ToX;
 impl Translator<String> for ToX {
     type TargetPk = XOnlyPublicKey;
@@ -323,6 +338,25 @@ where
                         Ok(Ok(_)) if has_direct_key => viol("translate-illegal-key-accepted", "uncompressed keys translated into a Segwitv0 miniscript".into()),
                         Ok(Err(TranslateErr::TranslatorErr(_))) => viol("translate-illegal-key-wrong-kind", "reported as translator error".into()),
                         Ok(Err(TranslateErr::OuterError(_))) => bump(&mut cen, "illegal_keys_rejected"),
+                        _ => {}
+                    }
+                }
+            }
+            // exactly one key mapped to an uncompressed key (contexts that forbid them): refused as an
+            // outer error iff that key is pushed as a key somewhere (pk_k, multi, multi_a), whatever its position
+            if ctx == "segwitv0" || ctx == "tap" {
+                for l in b.iter() {
+                    let direct = t.nodes().iter().any(|x| match x {
+                        T::PkK(k) => k == l,
+                        T::Multi(_, ks) | T::SortedMulti(_, ks) | T::MultiA(_, ks) | T::SortedMultiA(_, ks) => ks.contains(l),
+                        _ => false,
+                    });
+                    let r = guard(|| ms.translate_pk(&mut OneUncompressed { label: l.clone() }));
+                    match r {
+                        Ok(Ok(_)) if direct => viol("translate-one-illegal-key-accepted", format!("key {} mapped to an uncompressed key is accepted in {}", l, ctx)),
+                        Ok(Err(TranslateErr::OuterError(_))) if direct => bump(&mut cen, "illegal_keys_rejected"),
+                        Ok(Err(TranslateErr::TranslatorErr(e))) => viol("translate-illegal-key-wrong-kind", e),
+                        Err(e) => viol("translate-panic", e),
                         _ => {}
                     }
                 }
